@@ -106,6 +106,29 @@ reg(
     "DESIGN.md §3 C19",
 )
 
+reg(
+    "C18", "exploration",
+    "exhaustive small-scope differential: every chunking of a text through the real StreamingHandler on three feeding paths vs. a 6-line string spec",
+    "One case = (prefix, suffix, stop list, text); ALL 2^(n-1) chunkings for n<=8 (thorough n<=10) and sampled chunkings to n=40 are fed to fresh handlers on three paths (on_llm_new_token...on_llm_end with rotating chunk object types, push_chunk, push_chunk piped into a second handler). 253k (thorough 4.1M) chunkings: the joined streamed chunks and the final `.completion` must equal strip_suffix(cut_at_earliest_stop(strip_prefix(text))); 19 short configurations incl. multi-character suffixes, two-stop lists, self-overlapping stops and stops overlapping the suffix, plus the production patterns. Held on the chunkings observed (exhaustive in the stated scope).",
+    "oracle order (prefix, stop, suffix) is pinned by the repository's own streaming tests; patterns changed mid-stream, buffering mode and top-k line waiting are not explored",
+    "DESIGN.md §3 C18",
+)
+reg(
+    "C20", "exploration",
+    "history + reference model at the HTTP boundary: recorded realpaths of every directory handed to RailsConfig.from_path, stubbed generation recording its input messages, datastore compared with a dict model after every request",
+    "The real FastAPI app through TestClient; api.RailsConfig.from_path is wrapped to record lexical and real paths, api.LLMRails is a recording stub (every 20th thread sequence uses the real LLMRails with offline fakes). ~4.8k (thorough ~31k) cases: config-id strings from a grammar (separators, dot sequences, percent/unicode encodings, absolute paths, NUL, over-long, .yml suffixes, bait directories root_evil/ and outside/, an in-root symlink) as config_id and in every position of config_ids, cold and warm cache, three server modes; and request sequences over <=3 thread ids with and without context. Oracle: every loaded realpath is the root or below it; any other id gets the fixed reply with zero generation; messages handed to generation == stored thread + new; store afterwards == that + reply; other threads unchanged.",
+    "operator-placed symlinks inside the root are outside the statement; streaming with thread ids (unsupported TODO in api.py), the auto-reload watcher and the Redis store are not explored",
+    "DESIGN.md §3 C20",
+)
+
+reg(
+    "C12", "exploration",
+    "structural invariant at a hook: icontract post-condition on the real initialize_flow + from-scratch scan of every compiled flow, with dynamic confirmation of jumps under random histories",
+    "Every .co the repository ships (141 config directories, 58 loose files, docs) loaded through the real loader, plus 4000 v2 and 2000 v1 generated programs (thorough 30000/15000; nesting of if/elif/else, while, when/or when/else, break/continue, and/or groups, await/start/activate). v2: an icontract post-condition on statemachine.initialize_flow and an independent scan must agree that no composite element or non-primitive op remains, every Goto/ForkHead/CatchPatternFailure/Break/Continue label exists in the same flow and points at that Label, every MergeHeads has its ForkHead, every Break/Continue belongs to the innermost loop, and forward reachability (slide semantics) never reaches the end with an open scope nor re-enters an open one. v1: every _next/_next_else/_next_on_break/_next_on_continue/branch_heads target lands inside the flow, loop exits have the loop shape. Dynamic: generated programs are executed; an `Invalid label` log, label/fork KeyError or IndexError counts as the same violation.",
+    "trusts the reachability model of slide(); duplicate label names (the per-group copies of a `when` body) are counted as an observation, not a violation; v1 jumps that are wrong but still inside the flow are outside the statement (C14 covers behaviour)",
+    "DESIGN.md §3 C12",
+)
+
 NOT_BUILT_REASON = "check not built yet in this revision (claimed by DESIGN.md; see §5 order of work)"
 
 
